@@ -6,6 +6,7 @@ import (
 	"fmt"
 	"go/token"
 	"go/types"
+	"os"
 	"strings"
 
 	"golang.org/x/tools/go/ssa"
@@ -107,6 +108,7 @@ func ruleBounds(c *Ctx, fns []string, tier string) *RuleResult {
 	for _, name := range fns {
 		fn := c.Fn(name)
 		P := NewProver(c, fn)
+		P.trace = os.Getenv("MAMBA_TRACE") != ""
 		if tier == "thorough" {
 			P.Budget, P.DProve, P.DElim = 200000, 8, 8
 		}
@@ -202,9 +204,10 @@ func reducible(fn *ssa.Function) bool {
 
 // ruleTerm: every loop has a ranking function: an integer phi v at the header and a loop-invariant
 // bound B such that (1) every back edge carries v' >= v + 1 and (2) every back edge is taken only
-// under v' <= B (proved at the back-edge source), or symmetrically decreasing.
+// under v <= B (proved at the back-edge source), so B - v is a non-negative, strictly decreasing
+// integer; or symmetrically decreasing.
 func ruleTerm(c *Ctx, fns []string) *RuleResult {
-	r := &RuleResult{Rule: "TERM", Doc: "every loop of the decoder has a strictly monotone integer counter that is bounded by a loop-invariant value on every back edge", MinInst: 3}
+	r := &RuleResult{Rule: "TERM", Doc: "every loop of the decoder has a strictly monotone integer counter that is bounded by a loop-invariant value whenever the loop goes round again (ranking function B - counter)", MinInst: 3}
 	for _, name := range fns {
 		fn := c.Fn(name)
 		if !reducible(fn) {
@@ -319,12 +322,13 @@ func termCandidate(P *Prover, h *ssa.BasicBlock, body map[*ssa.BasicBlock]bool, 
 	for _, bnd := range bounds {
 		all := true
 		for _, i := range backs {
-			e := P.poly(ph.Edges[i])
+			// ranking function |B - v| : the current value is on the right side of the bound whenever
+			// the loop goes round again, and (1) moves it strictly towards the bound
 			var g Poly
 			if dir > 0 {
-				g = e.add(bnd, -1) // e <= B
+				g = v.add(bnd, -1) // v <= B
 			} else {
-				g = bnd.add(e, -1) // e >= B
+				g = bnd.add(v, -1) // v >= B
 			}
 			if !P.ProveWith(g, h.Preds[i], P.edgeFacts(h.Preds[i], h)) {
 				all = false
